@@ -35,6 +35,7 @@ func main() {
 	onlyCase := flag.Int("case", -1, "run only this case")
 	maxPaths := flag.Int("maxpaths", 200000, "per task")
 	maxDec := flag.Int("maxdecisions", 400, "symbolic decisions per path (unwinding bound)")
+	hangSteps := flag.Int64("hangsteps", 0, "when > 0: a path executing more interpreter steps than this is reported as a termination counterexample")
 	maxSamples := flag.Int("samples", 8, "path models kept per task for translator validation")
 	smtlog := flag.String("smtlog", "", "directory for SMT-LIB2 transcripts")
 	taskTO := flag.Duration("tasktimeout", 0, "per task wall budget")
@@ -45,6 +46,7 @@ func main() {
 	stubs := flag.String("stubstr", "", "comma separated functions (ssa full names) returning string that are replaced by an opaque placeholder: formatting is not the subject")
 	stubz := flag.String("stubzero", "", "comma separated functions (ssa full names) replaced by a stub returning zero values")
 	wasm := flag.String("wasm", "", "wasm modules for vfWasmLoad: name=path,name=path")
+	transparent := flag.String("transparent", "", "comma-separated packages to execute although they are on the default opaque list")
 	trace := flag.Bool("trace", false, "log target panics to stderr")
 	flag.Parse()
 
@@ -93,10 +95,11 @@ func main() {
 	lim := gosym.DefaultLimits()
 	lim.MaxPaths, lim.MaxDecisions = *maxPaths, *maxDec
 	lim.BranchTimeout, lim.AssertTimeout = *branchTO, *assertTO
+	lim.HangSteps = *hangSteps
 	o.Limits = map[string]int64{"max_paths": int64(lim.MaxPaths), "max_decisions_per_path": int64(lim.MaxDecisions),
-		"max_steps_per_path": lim.MaxSteps, "branch_timeout_ms": lim.BranchTimeout.Milliseconds(), "assert_timeout_ms": lim.AssertTimeout.Milliseconds()}
+		"max_steps_per_path": lim.MaxSteps, "termination_step_budget": lim.HangSteps, "branch_timeout_ms": lim.BranchTimeout.Milliseconds(), "assert_timeout_ms": lim.AssertTimeout.Milliseconds()}
 	res, err := gosym.RunAll(prog, *pkg, hs, *onlyCase, gosym.Options{Jobs: *jobs, Solver: *solver, Lim: lim,
-		CaseLimit: parseLimits(*caseLimit), StubStr: splitList(*stubs), StubZero: splitList(*stubz), WasmFiles: parseKV(*wasm), MaxSamples: *maxSamples, SMTLogDir: *smtlog, TaskTimeout: *taskTO, Trace: *trace})
+		CaseLimit: parseLimits(*caseLimit), StubStr: splitList(*stubs), StubZero: splitList(*stubz), Transparent: splitList(*transparent), WasmFiles: parseKV(*wasm), MaxSamples: *maxSamples, SMTLogDir: *smtlog, TaskTimeout: *taskTO, Trace: *trace})
 	if err != nil {
 		fail(err)
 	}
